@@ -11,6 +11,9 @@ import itertools
 import random
 
 PTS = "PTS"  # placeholder: post_training_scale taken from a first call at run time
+ARR_COL = "ARR_COL"    # placeholder: per-row array alpha of shape (6, 1) (non-trailing axis of the (6, 4) probes)
+ARR_ROW = "ARR_ROW"    # placeholder: per-column array alpha of shape (1, 4)
+PLACEHOLDERS = (PTS, ARR_COL, ARR_ROW)
 
 DOMAIN = {
     "quantized_bits": {
@@ -22,7 +25,7 @@ DOMAIN = {
     },
     "quantized_linear": {
         "bits": [4, 2], "integer": [2, 1], "symmetric": [0], "keep_negative": [False],
-        "alpha": [2.0, "auto", "auto_po2"], "use_stochastic_rounding": [True],
+        "alpha": [2.0, "auto", "auto_po2", ARR_COL, ARR_ROW], "use_stochastic_rounding": [True],
         "scale_axis": [0], "qnoise_factor": [0.5], "var_name": ["vq"], "use_variables": [True],
     },
     "bernoulli": {"alpha": [2.0, "auto", "auto_po2"], "temperature": [2.0], "use_real_sigmoid": [False]},
@@ -91,8 +94,6 @@ def valid(cls, kw):
         kw["min_po2_exponent"] > kw["max_po2_exponent"]:
       return False
     if kw.get("post_training_scale") is not None and not auto:
-      return False
-    if auto and kw.get("keep_negative") is False:
       return False
     if auto and kw.get("bits", 8) < 3:
       return False
